@@ -5,9 +5,9 @@
    f32 scoring matrix and its u8 discretisation, M rows each), an f32 and a u8 score matrix.
    The abstract state records exactly the quantities the guards of the safe wrappers read
    (lengths, row counts, wrap rows, max_index); an op updates them the way the code does and
-   emits one footprint event per unsafe kernel it enters.  A call that panics (guards of the
-   wrappers, `assert_eq!`) leaves the state unchanged (the harness catches the unwind; the
-   wrappers panic before touching their arguments).  Cloning a buffer copies its row count
+   emits one footprint event per unsafe kernel it enters.  A call that panics in the guards of a SIMD
+   wrapper or in `assert_eq!` leaves the state unchanged (the harness catches the unwind; these
+   panic before touching their arguments); the generic scoring code panics AFTER resizing the scores.  Cloning a buffer copies its row count
    (and shrinks its capacity, which the model never counts as owned), so it is not an op.
 
    Executable definitions only (no proofs). *)
@@ -96,6 +96,14 @@ Section History.
             (mkH (hE s) (hL s) (hSR s) (hwrap s) (hM s) (hi - lo) (sat_sub (hL s + 1) (hM s)) (hUR s),
              [mkEv (ext_score 4 p) balign_mat_src accs])
         | Ok Skipped => (mkH (hE s) (hL s) (hSR s) (hwrap s) (hM s) 0 0 (hUR s), [])
+        | Panic _ =>
+            (* the trait default (generic arm) resizes the scores to rows.len() BEFORE its checked index
+               `seq.matrix()[seq_row + j]` panics (pli/mod.rs `score_rows_into`); the SIMD wrappers panic
+               before they touch their arguments *)
+            match a with
+            | AGeneric => (mkH (hE s) (hL s) (hSR s) (hwrap s) (hM s) (hi - lo) (sat_sub (hL s + 1) (hM s)) (hUR s), [])
+            | _ => (s, [])
+            end
         | _ => (s, [])
         end
     | HScoreU8 a lo hi =>
@@ -109,6 +117,11 @@ Section History.
             (mkH (hE s) (hL s) (hSR s) (hwrap s) (hM s) (hFR s) (hFI s) (hi - lo),
              [mkEv (ext_score 1 p) balign_mat_src accs])
         | Ok Skipped => (mkH (hE s) (hL s) (hSR s) (hwrap s) (hM s) (hFR s) (hFI s) 0, [])
+        | Panic _ =>
+            match a with
+            | AAvx2 => (s, [])
+            | _ => (mkH (hE s) (hL s) (hSR s) (hwrap s) (hM s) (hFR s) (hFI s) (hi - lo), [])
+            end
         | _ => (s, [])
         end
     | HResize n mi => (mkH (hE s) (hL s) (hSR s) (hwrap s) (hM s) n mi n, [])
